@@ -56,6 +56,7 @@ var (
 	ErrCorruptedBlock    = errors.New("block checksum mismatch")
 	ErrCorruptedEntry    = errors.New("entry data corrupted")
 	ErrEmptyKey          = errors.New("entry key cannot be empty")
+	ErrKeyTooLong        = errors.New("entry key is longer than 65535 bytes")
 	ErrFileClosed        = errors.New("file is closed")
 	ErrCompactionRunning = errors.New("compaction is already running")
 )
@@ -205,6 +206,21 @@ type Entry struct {
 	Operation uint8  // OpInsert, OpUpdate, or OpDelete
 	Key       string // Unique key for this entry
 	Data      []byte // Serialized treasure data (empty for delete)
+}
+
+// MaxKeyLength is the longest key the entry format can encode (16-bit length field).
+const MaxKeyLength = 65535
+
+// Validate reports whether the entry can be encoded faithfully: an empty key cannot be read back
+// and a key longer than MaxKeyLength would have its length truncated, corrupting the rest of the block.
+func (e *Entry) Validate() error {
+	if len(e.Key) == 0 {
+		return ErrEmptyKey
+	}
+	if len(e.Key) > MaxKeyLength {
+		return ErrKeyTooLong
+	}
+	return nil
 }
 
 // Serialize converts the entry to bytes
